@@ -82,10 +82,15 @@ def main(argv=None):
     for gname, frac in getattr(W, "GUESTS", []):
         G = load_workload(gname)
         gs = [d for d in G.shards(args.tier, args.seed, args.scale) if d.get("guest_ok", True)]
+        # fewer, larger guest shards (process start-up dominates tiny shards): keep every 4th random shard with 4x the cases
+        rand = [d for d in gs if d.get("kind") == "rand"]
+        keep = set(id(d) for i, d in enumerate(rand) if i % 4 == 0)
+        mult = len(rand) / float(max(1, len(keep)))
+        gs = [d for d in gs if d.get("kind") != "rand" or id(d) in keep]
         for d in gs:
             d = dict(d)
             if "n" in d:
-                d["n"] = max(1, int(d["n"] * frac))
+                d["n"] = max(1, int(d["n"] * frac * (mult if d.get("kind") == "rand" else 1)))
             elif "budget_s" not in d:
                 d["frac"] = frac
             d["guest_of"] = pid
